@@ -1,9 +1,15 @@
 use crate::rt::Ctx;
+pub mod c01;
+pub mod c02;
+pub mod c12;
 pub mod c18;
 pub mod c19;
 
 pub fn run(prop: &str, ctx: &mut Ctx) -> bool {
     match prop {
+        "C01" => c01::run(ctx),
+        "C02" => c02::run(ctx),
+        "C12" => c12::run(ctx),
         "C18" => c18::run(ctx),
         "C19" => c19::run(ctx),
         _ => return false,
